@@ -497,6 +497,8 @@ def _run(rig: Rig, res: Result, only=None):
     res.count("id_routes_discovered", len(id_routes))
     res.count("plain_get_routes_discovered", len(plain_get))
     inconclusive_routes: dict[str, str] = {}
+    role_blind: set[str] = set()
+    ambiguous: set[str] = set()
 
     def classify(route, served_same_as_authorised: bool):
         roles_dep = has_dep(route, auth.user_roles)
@@ -566,6 +568,7 @@ def _run(rig: Rig, res: Result, only=None):
                         res.count("denied_same_as_nonexistent")
                         if 200 <= status < 300:
                             res.count("role_blind_2xx_without_unit_data")
+                            role_blind.add(f"{method} {route.path}")
                     served_same = (status, text) == (c_status, c_text)
                     mech = classify(route, served_same)
                     if leak:
@@ -573,9 +576,14 @@ def _run(rig: Rig, res: Result, only=None):
                         res.violation(mech, f"{method} {route.path}: user roles {sorted(U)} vs required {sorted(R)} got "
                                       f"{status} with unit data {found}", case)
                     elif not refused and not same_as_none:
-                        res.violation(mech, f"{method} {route.path}: user roles {sorted(U)} vs required {sorted(R)} got "
-                                      f"{status} {text[:160]!r}, neither a refusal nor the answer for a non-existent id "
-                                      f"({n_status} {n_text[:120]!r})", case)
+                        if 200 <= status < 300:
+                            res.violation(mech, f"{method} {route.path}: user roles {sorted(U)} vs required {sorted(R)} "
+                                          f"got {status} {text[:160]!r}, neither a refusal nor the answer for a "
+                                          f"non-existent id ({n_status} {n_text[:120]!r})", case)
+                        else:
+                            # e.g. a 400/404/500 raised before the role check: not served, not a clean refusal either
+                            res.count("denied_error_status_not_a_refusal_ambiguous")
+                            ambiguous.add(f"{method} {route.path} -> {status}")
                     if n_rpc:
                         res.violation("C32.rpc_reached_engine_for_denied_user",
                                       f"{method} {route.path}: {rpc_types} reached the engine channel for user roles "
@@ -640,7 +648,7 @@ def _run(rig: Rig, res: Result, only=None):
                                   f"GET {route.path}: unit/run {did} requiring no roles not listed for user roles "
                                   f"{sorted(U)}", case)
         if denied and S.mark in text:
-            found =sorted(set(re.findall(re.escape(S.mark) + r"[A-Z0-9]+", text)))[:6]
+            found = sorted(set(re.findall(re.escape(S.mark) + r"[A-Z0-9]+", text)))[:6]
             mech = "C32.listing_includes_denied_unit" if is_listing else classify(route, (status, text) == (c_status, c_text))
             res.violation(mech, f"GET {route.path}: unit data {found} of a unit requiring {sorted(R)} returned to user "
                           f"roles {sorted(U)}", case)
@@ -692,6 +700,12 @@ def _run(rig: Rig, res: Result, only=None):
     other_ws = sorted(r.path for r in ws_routes if not r.path.startswith("/api/lsp"))
     if other_ws:
         res.notes.append(f"websocket routes not exercised (engine rpc / frontend pubsub, no unit data in scope): {other_ws}")
+    if role_blind:
+        res.notes.append("routes answering 2xx to a denied user with a body identical to the answer for a non-existent "
+                         f"id, i.e. without unit data (counted, not judged): {sorted(role_blind)}")
+    if ambiguous:
+        res.notes.append(f"denied requests answered with an error status other than 401/403 that differs from the "
+                         f"non-existent-id answer (counted, not judged): {sorted(ambiguous)}")
     for k in sorted(inconclusive_routes):
         res.notes.append(f"inconclusive for route {k}: {inconclusive_routes[k]}")
 
